@@ -30,7 +30,7 @@ def main(argv):
     followups = [c for c in OPS if c["op"] in ("add", "get", "set", "incr", "get_many", "delete", "gets")]
     n = 0
     ALL = OPS + [{"op": "quit"}]
-    for kind in ("Client", "ClientIgn", "Pooled", "Pooled1", "Hash1", "HashPooled"):
+    for kind in ("Client", "ClientIgn", "ClientUnix", "Pooled", "Pooled1", "Hash1", "HashUnix", "HashPooled"):
         for oi, call in enumerate(ALL):
             if call["op"] == "quit" and kind.startswith("Hash"):
                 continue          # HashClient.quit is a broadcast, not a key-addressed call
@@ -80,7 +80,7 @@ def main(argv):
                         return o
                     C01.mk = mk_obs
                     try:
-                        ok = run_sequence(ctx, real_kind, classes, seq, rng, model_lines if (kind in ("Client", "ClientIgn") and "close_fault" not in script) else None, model_meta)
+                        ok = run_sequence(ctx, real_kind, classes, seq, rng, model_lines if (kind in ("Client", "ClientIgn", "ClientUnix") and "close_fault" not in script) else None, model_meta)
                     finally:
                         C01.mk = orig_mk
                     n += 1
